@@ -1,7 +1,7 @@
 (* Proofs about the NFSv4.1 model: entry point collecting the Proofs*.v
    files, plus concrete reachable states used as non-vacuity examples. *)
 From VF Require Export Nfs41.Model Nfs41.Dump Nfs41.Spec Nfs41.Corr.
-From VF Require Export Nfs41.ProofsSeq Nfs41.ProofsThreads Nfs41.ProofsTheorems Nfs41.ProofsExpiry.
+From VF Require Export Nfs41.ProofsSeq Nfs41.ProofsThreads Nfs41.ProofsTheorems Nfs41.ProofsExpiry Nfs41.ProofsMonitor.
 Open Scope N_scope.
 
 (* A history that reaches a non-trivial state: a client with a session, an
